@@ -211,7 +211,7 @@ func (e *Enc) solve(opt solveOpts) {
 		}
 		// probes must be in generation order for the interleaved script
 		sort.SliceStable(probes, func(i, j int) bool { return probes[i].at < probes[j].at })
-		e.runBatch(solvers[0], probes, off, opt.quickMs)
+		e.runBatchC(solvers[0], probes, off, opt.quickMs, 6) // satisfiable queries are the expensive ones
 		for _, p := range probes {
 			if p.Verdict == "unsat" {
 				for _, o := range byReach[p.reach] {
@@ -230,8 +230,11 @@ func (e *Enc) solve(opt solveOpts) {
 // runBatch splits large batches over several solver processes (the assertions are cheap to replay, the
 // queries are not).
 func (e *Enc) runBatch(cfg solverCfg, obs []*Oblig, off map[string]bool, ms int) {
-	const chunk = 48
-	if len(obs) <= chunk+16 {
+	e.runBatchC(cfg, obs, off, ms, 48)
+}
+
+func (e *Enc) runBatchC(cfg solverCfg, obs []*Oblig, off map[string]bool, ms int, chunk int) {
+	if len(obs) <= chunk+chunk/3 {
 		e.runBatch1(cfg, obs, off, ms)
 		return
 	}
@@ -267,6 +270,9 @@ func (e *Enc) runBatch1(cfg solverCfg, obs []*Oblig, off map[string]bool, ms int
 	t0 := time.Now()
 	vs, raw := runScript(cfg, e.script(obs, off, false), len(obs), ms)
 	el := int(time.Since(t0).Milliseconds())
+	if os.Getenv("GOVC_BATCH") != "" && el > 1000 {
+		fmt.Fprintf(os.Stderr, "batch %s n=%d %dms\n", cfg.name, len(obs), el)
+	}
 	per := el / len(obs)
 	hasErr := false
 	for _, v := range vs {
